@@ -348,3 +348,105 @@ def gen_scenes(rng, n, rounds=True):
         mB = rng.choice((0, 0, 0, 1, 2))
         out.append((Body(pa, MA, tA, mA), Body(pb, MB, tB, mB)))
     return out
+
+
+# ---------------- watchdog, depth, boolean tests ----------------
+import signal
+from contextlib import contextmanager
+
+
+class Hang(Exception):
+    pass
+
+
+@contextmanager
+def time_limit(seconds):
+    """wall-clock watchdog for one library call (the outer loops of the narrow phase are Python level)"""
+    def handler(signum, frame):
+        raise Hang()
+    old = signal.signal(signal.SIGALRM, handler)
+    signal.setitimer(signal.ITIMER_REAL, seconds)
+    try:
+        yield
+    finally:
+        signal.setitimer(signal.ITIMER_REAL, 0)
+        signal.signal(signal.SIGALRM, old)
+
+
+def inside_depth(spec, p, margin=0):
+    """lower bound on the depth of local point p inside the shape (negative / 0 if not inside)"""
+    p = np.asarray(p, dtype=float)
+    x, y, z = p
+    k = spec["kind"]
+    rho = math.hypot(x, y)
+    if k == "sphere":
+        d = spec["r"] - float(np.linalg.norm(p))
+    elif k == "capsule":
+        zc = min(max(z, -spec["h"] / 2), spec["h"] / 2)
+        d = spec["r"] - math.sqrt(x * x + y * y + (z - zc) ** 2)
+    elif k == "cylinder":
+        d = min(spec["r"] - rho, spec["h"] / 2 - abs(z))
+    elif k == "cone":
+        d = min(z, ((spec["h"] - z) * spec["r"] / spec["h"] - rho) * spec["h"] / math.hypot(spec["h"], spec["r"]))
+    elif k == "ellipsoid":
+        g = math.sqrt((x / spec["a"]) ** 2 + (y / spec["b"]) ** 2 + (z / spec["c"]) ** 2)
+        d = (1 - g) * min(spec["a"], spec["b"], spec["c"])
+    elif k == "box":
+        d = min(spec["a"] / 2 - abs(x), spec["b"] / 2 - abs(y), spec["c"] / 2 - abs(z))
+    elif k == "hull":
+        F = S.hull_facets(spec["V"])
+        d = min((f[1] - float(np.dot(f[0], p))) / float(np.linalg.norm(f[0])) for f in F) if F else -1.0
+    else:
+        d = -1.0
+    # outside the base shape nothing is claimed (a sound depth would need an upper bound on the distance)
+    return d + margin if d >= 0 else -1.0
+
+
+def deep_overlap(A, B, cert, delta_lat):
+    """is there a point at least delta_lat inside both bodies? (sufficient test over a few candidate points)"""
+    cA = A.t + A.R @ center_local(A.spec)
+    cB = B.t + B.R @ center_local(B.spec)
+    cands = [cA, cB, 0.5 * (cA + cB), 0.25 * cA + 0.75 * cB, 0.75 * cA + 0.25 * cB]
+    if cert is not None:
+        a0 = sum(w * np.array(v, dtype=float) for w, v in zip(cert["wa"], cert["VA"])) / cert["W"]
+        b0 = sum(w * np.array(v, dtype=float) for w, v in zip(cert["wb"], cert["VB"])) / cert["W"]
+        cands.append(0.5 * (a0 + b0))
+    best = -1e9
+    for p in cands:
+        best = max(best, min(inside_depth(A.spec, A.to_local(p), A.margin), inside_depth(B.spec, B.to_local(p), B.margin)))
+    return bool(best >= delta_lat)
+
+
+def measure_bool(rid, A, B, lift, fname, call, delta, clsA=None, clsB=None, proxy=True):
+    s = lift[0]
+    L = scene_L(A, B, lift)
+    cert = exact_certificate(A, B)
+    dl = delta * L / s                      # delta in lattice units
+    G = 1
+    if cert:
+        # gap threshold 1/G lattice units must be >= delta: the largest admissible G (capped for 32-bit safety)
+        G = int(min(16, max(1, math.floor(1.0 / dl)))) if dl <= 1.0 else 0
+        if G == 0:
+            cert = None
+    rec = {"id": rid, "kind": "bool", "fn": fname, "exact": cert is not None, "exc": "none", "answer": False,
+           "VA": [[0, 0, 0]], "rA": 0, "VB": [[0, 0, 0]], "rB": 0, "xn": [0, 0, 0], "W": 1, "wa": [1], "wb": [1], "G": 1,
+           "deep": False, "floatGap": False, "supportCalls": 0}
+    if cert:
+        rec.update(cert)
+        rec["G"] = G
+    rec["deep"] = deep_overlap(A, B, cert, dl)
+    _, fg = float_flags(A, B, 100 * dl / 10)     # float gap >= 100*... see float_flags: threshold 10*arg -> gap >= delta*100/... 
+    rec["floatGap"] = bool(fg)
+    ca, cb = A.build(lift, clsA), B.build(lift, clsB)
+    if proxy:
+        ca, cb = Proxy.wrap(ca), Proxy.wrap(cb)
+    try:
+        with time_limit(10.0):
+            rec["answer"] = bool(call(ca, cb))
+    except Hang:
+        rec["exc"] = "Hang"
+    except Exception as e:
+        rec["exc"] = type(e).__name__
+    if proxy:
+        rec["supportCalls"] = max(ca.calls, cb.calls)
+    return rec
